@@ -1612,9 +1612,15 @@ func (d *DFA) getStartState(cache *DFACache, haystack []byte, pos int, anchored 
 	// This handles the case where another goroutine may have inserted it
 	insertedState, existed, err := cache.GetOrInsert(key, state)
 	if err != nil {
-		// Cache full - return the computed state anyway
-		// (it won't be cached, but search can continue)
-		return state
+		// Cache full. An unregistered state has no ID and no transition row, so the
+		// search cannot run from it: make room by clearing the cache, otherwise
+		// report failure (nil) so that the caller falls back to the NFA.
+		if d.tryClearCache(cache) != nil {
+			return nil
+		}
+		if insertedState, existed, err = cache.GetOrInsert(key, state); err != nil {
+			return nil
+		}
 	}
 
 	// Register in ID lookup map (only if we inserted a new state)
@@ -2174,7 +2180,13 @@ func (d *DFA) getStartStateForReverse(cache *DFACache, haystack []byte, end int)
 
 	insertedState, existed, err := cache.GetOrInsert(key, state)
 	if err != nil {
-		return state
+		// Cache full: clear it and retry, else nil (NFA fallback), as in getStartState.
+		if d.tryClearCache(cache) != nil {
+			return nil
+		}
+		if insertedState, existed, err = cache.GetOrInsert(key, state); err != nil {
+			return nil
+		}
 	}
 
 	if !existed {
